@@ -9,6 +9,10 @@ import (
 	"strings"
 
 	"github.com/jf-tech/omniparser"
+	"github.com/jf-tech/omniparser/customfuncs"
+	"github.com/jf-tech/omniparser/extensions/omniv21"
+	v21cf "github.com/jf-tech/omniparser/extensions/omniv21/customfuncs"
+	"github.com/jf-tech/omniparser/transformctx"
 
 	"verif/mc/core"
 	"verif/mc/gen"
@@ -23,6 +27,9 @@ type c15Job struct {
 	Schema string
 	Input  string
 	Ext    map[string]string
+	// CustomUpper: the schema is created with a caller's extension, built the documented way
+	// (Merge(CommonCustomFuncs, OmniV21CustomFuncs, own)), whose own 'upper' only capitalises the first letter
+	CustomUpper bool
 }
 
 func c15Jobs() []c15Job {
@@ -42,6 +49,16 @@ func c15Jobs() []c15Job {
 			Input: `{"recs":[{"key":"a","fields":{"a":1,"b":2.5},"a":"A"},{"key":"b","fields":{"a":3,"b":4,"c":5},"b":"B"},{"key":"zz","fields":{"x":true}}]}`},
 		c15Job{Name: "csv-datetime", Schema: `{` + h("csv") + `,"file_declaration":{"delimiter":"|","header_row_index":1,"data_row_index":2,"columns":[{"name":"D"},{"name":"TZ"}]},"transform_declarations":{"FINAL_OUTPUT":{"object":{"t":{"custom_func":{"name":"dateTimeToRFC3339","args":[{"xpath":"D"},{"xpath":"TZ"},{"const":"UTC"}]}},"e":{"custom_func":{"name":"dateTimeToEpoch","args":[{"xpath":"D"},{"xpath":"TZ"},{"const":"MILLISECOND"}]}},"l":{"custom_func":{"name":"lower","args":[{"xpath":"TZ"}]}}}}}}`,
 			Input: "D|TZ\n2020-02-29 12:34:56|America/New_York\n1969-07-20T20:17:40Z|\n09/10/2021 1:02:03 PM|Asia/Kolkata\n"},
+	)
+	// scripts: one that throws while it holds arguments (under ignore_error), one that looks for globals it was not given
+	jsThrow := `{` + h("csv") + `,"file_declaration":{"delimiter":",","data_row_index":1,"columns":[{"name":"A"}]},"transform_declarations":{"FINAL_OUTPUT":{"object":{"a":{"xpath":"A"},"t":{"custom_func":{"name":"javascript","ignore_error":true,"args":[{"const":"if (secret != '') { throw 'no: ' + secret } 1"},{"const":"secret"},{"xpath":"A"},{"const":"JSON"},{"const":"shadow"}]}},"u":{"custom_func":{"name":"javascript_with_context","ignore_error":true,"args":[{"const":"throw _node"}]}}}}}}`
+	jsProbe := `{` + h("csv") + `,"file_declaration":{"delimiter":",","data_row_index":1,"columns":[{"name":"A"}]},"transform_declarations":{"FINAL_OUTPUT":{"object":{"a":{"xpath":"A"},"p":{"custom_func":{"name":"javascript","args":[{"const":"[typeof secret, typeof _node, typeof JSON, typeof a, typeof v].join('|')"}]}},"q":{"custom_func":{"name":"javascript","args":[{"const":"(typeof secret == 'undefined') ? 'n/a' : secret"}]}}}}}}`
+	upperSchema := `{` + h("csv") + `,"file_declaration":{"delimiter":",","data_row_index":1,"columns":[{"name":"A"}]},"transform_declarations":{"FINAL_OUTPUT":{"object":{"u":{"custom_func":{"name":"upper","args":[{"xpath":"A"}]}},"l":{"custom_func":{"name":"lower","args":[{"xpath":"A"}]}}}}}}`
+	jobs = append(jobs,
+		c15Job{Name: "js-throwing-while-holding-arguments", Schema: jsThrow, Input: "s3cret\nx\n"},
+		c15Job{Name: "js-looking-for-globals", Schema: jsProbe, Input: "r1\nr2\n"},
+		c15Job{Name: "upper-with-callers-extension", Schema: upperSchema, Input: "alice\nBOB\n", CustomUpper: true},
+		c15Job{Name: "upper-with-builtin-extension", Schema: upperSchema, Input: "alice\nBOB\n"},
 	)
 	// typed external properties: the same schema text with different property values (a long-lived
 	// process keeps ONE Schema object and creates a Transform per input)
@@ -63,16 +80,28 @@ var c15Schemas map[string]omniparser.Schema
 
 func c15RunJob(j c15Job) []string {
 	var schema omniparser.Schema
-	if s, ok := c15Schemas[j.Schema]; ok {
+	key := fmt.Sprint(j.CustomUpper) + j.Schema
+	if s, ok := c15Schemas[key]; ok {
 		schema = s
 	} else {
-		s, err, ps := hx.NewSchema("s", j.Schema)
+		var exts []omniparser.Extension
+		if j.CustomUpper {
+			own := customfuncs.CustomFuncs{"upper": func(_ *transformctx.Ctx, s string) (string, error) {
+				if s == "" {
+					return s, nil
+				}
+				return strings.ToUpper(s[:1]) + s[1:], nil
+			}}
+			exts = append(exts, omniparser.Extension{CreateSchemaHandler: omniv21.CreateSchemaHandler,
+				CustomFuncs: customfuncs.Merge(customfuncs.CommonCustomFuncs, v21cf.OmniV21CustomFuncs, own)})
+		}
+		s, err, ps := hx.NewSchema("s", j.Schema, exts...)
 		if err != nil {
 			return []string{"SCHEMA ERROR " + err.Error() + ps}
 		}
 		schema = s
 		if c15Schemas != nil {
-			c15Schemas[j.Schema] = s
+			c15Schemas[key] = s
 		}
 	}
 	r := hx.Run(schema, strings.NewReader(j.Input), hx.Opts{MaxReads: 500, Raw: true, Externals: j.Ext})
@@ -189,7 +218,7 @@ func c15Variants() map[string][]string {
 		"edi-flat":          {"A*x*1~", "A*x*1~", "A*x*2~", "A*y*1~", "A*xx*1~", "A**1~"},
 		"edi-nested":        {"ST*x\nN1*1\nSE\n", "ST*x\nN1*1\nSE\n", "ST*x\nN1*2\nSE\n", "ST*y\nN1*1\nSE\n", "ST*x\nN1*1\nN1*1\nSE\n", "ST*x\nSE\n"},
 		"json-array":        {`{"a":"x","b":[1,{"c":2}]},`, `{"a":"x","b":[1,{"c":2}]},`, `{"a":"x","b":[1,{"c":3}]},`, `{"a":"y","b":[1,{"c":2}]},`, `{"a":"x","b":[1,{"c":"2"}]},`, `{"a":"x","b":[[1],{"c":2}]},`, `{"a":"x","b":[1,{"c":2}],"d":null},`, `{"a":"x","b":{"":1}},`, `{"a":"x","b":[1]},`, `{"a":"x","b":1},`, `{"a":"x","b":"1"},`},
-		"xml-basic":         {`<a k="x"><b>1</b><c/></a>`, `<a k="x"><b>1</b><c/></a>`, `<a k="x"><b>2</b><c/></a>`, `<a k="y"><b>1</b><c/></a>`, `<a k="x"><b>1</b><c>z</c></a>`, `<a k="x" j="1"><b>1</b><c/></a>`, `<a k="x"><b>1</b><c/><c/></a>`, `<a k="x"><b>1</b></a>`, `<a k="x">t1<b>1</b><c/></a>`, `<a k="x">t2<b>1</b><c/></a>`, `<a k="x"><b>1</b><c k="1"><d>1</d><d>2</d></c></a>`, `<a k="x"><b>1</b><c k="2"><d>1</d><d>2</d></c></a>`},
+		"xml-basic":         {`<a k="x"><b>1</b><c/></a>`, `<a k="x"><b>1</b><c/></a>`, `<a k="x"><b>2</b><c/></a>`, `<a k="y"><b>1</b><c/></a>`, `<a k="x"><b>1</b><c>z</c></a>`, `<a k="x" j="1"><b>1</b><c/></a>`, `<a k="x"><b>1</b><c/><c/></a>`, `<a k="x"><b>1</b></a>`, `<a k="x">t1<b>1</b><c/></a>`, `<a k="x">t2<b>1</b><c/></a>`, `<a k="x"><b>1</b><c k="1"><d>1</d><d>2</d></c></a>`, `<a k="x"><b>1</b><c k="2"><d>1</d><d>2</d></c></a>`, `<a k="x"><b j="1">1</b><c/></a>`, `<a k="x"><b j="2">1</b><c/></a>`},
 	}
 }
 
@@ -239,7 +268,7 @@ func init() {
 	core.Register(&core.Prop{
 		ID:    "C15",
 		Level: "exploration",
-		Rule:  "jobs = 15 (schema, input, externals) triples covering all seven formats, templates, xpath_dynamic, javascript(_with_context), copy, uuidv3, date-time functions, XML namespaces incl. one URI bound twice, typed external properties (one schema text, three property sets), dotted sibling object keys failing together; histories are run both with every job parsing its schema anew and with jobs of equal schema text sharing ONE Schema object; every history of up to 2 (thorough 3) earlier jobs followed by a probe job is run in one process (pools and caches warm, ID counter advanced; state reset only between histories) and the probe's full transcript (bytes, checksums, raw records, errors) must equal the transcript of the same job in a FRESH process (3 fresh subprocesses per job, which must also agree with each other); no emitted record may contain a UUID-shaped string that is not in the input (declaration hashes are UUIDs); checksums: every pair from a per-format record alphabet (equal content, one value changed, shape changed) must have equal checksums iff the records are equal; distinct by (history, probe) / (format, record pair)",
+		Rule:  "jobs = 19 (schema, input, externals) triples covering all seven formats, templates, xpath_dynamic, javascript(_with_context), copy, uuidv3, date-time functions, XML namespaces incl. one URI bound twice, typed external properties (one schema text, three property sets), dotted sibling object keys failing together, a script that throws while holding arguments and one that looks for globals it was not given, the same schema under the built-in extension and under a caller's extension that overrides 'upper'; histories are run both with every job parsing its schema anew and with jobs of equal schema text sharing ONE Schema object; every history of up to 2 (thorough 3) earlier jobs followed by a probe job is run in one process (pools and caches warm, ID counter advanced; state reset only between histories) and the probe's full transcript (bytes, checksums, raw records, errors) must equal the transcript of the same job in a FRESH process (3 fresh subprocesses per job, which must also agree with each other); no emitted record may contain a UUID-shaped string that is not in the input (declaration hashes are UUIDs); checksums: every pair from a per-format record alphabet (equal content, one value changed, shape changed) must have equal checksums iff the records are equal; distinct by (history, probe) / (format, record pair)",
 		Assumptions: []string{
 			"Go map iteration order cannot be enumerated: order dependence is exposed only through repetition (every probe runs at least 100 times across histories), which is stated here rather than claimed exhaustive",
 			"the `now` function and scripts drawing randomness are excluded by the property",
